@@ -4,6 +4,11 @@
 pub mod vrt;
 pub mod c01;
 pub mod c02;
+pub mod c03;
+pub mod c04;
+pub mod c05;
+pub mod c13;
+pub mod util;
 
 /// Structural parameters of a scenario (always concrete).
 #[derive(Clone, Copy, Debug)]
@@ -17,6 +22,10 @@ pub fn scenario(name: &str) -> Option<Scenario> {
     Some(match name {
         "c01_flow_reject" => c01::c01_flow_reject,
         "c02_window" => c02::c02_window,
+        "c03_breaker" => c03::c03_breaker,
+        "c04_accounting" => c04::c04_accounting,
+        "c05_isolation" => c05::c05_isolation,
+        "c13_chain" => c13::c13_chain,
         _ => return None,
     })
 }
